@@ -451,6 +451,10 @@ func escRun(npay int, op int) {
 		}
 		verif_Assert(moved.Equal(credited), "C02 amount transferred by the account equals the total credited to its payees")
 		verif_Assert(moved.GTE(sdk.ZeroInt()), "C02 transferred total never decreases")
+		// what an account transfers comes out of its balance, so (by induction over the history) it never
+		// transfers more than was deposited into it
+		verif_Assert(moved.LTE(a0.Balance.Amount), "C02 an account never transfers more than was deposited into it")
+		verif_Assert(a1.Balance.Amount.LTE(a0.Balance.Amount.Sub(moved)), "C02 an account never transfers more than was deposited into it")
 	}
 	_ = err
 	escCheck(e, pre, post, preModule, focus)
